@@ -23,8 +23,8 @@ FUNCTIONS = ["GeckoSwitch.async_turn_on/async_turn_off/turn_on/turn_off", "Gecko
              "GeckoPackCommandProtocolHandler.set_value/keypress/handle", "GeckoWatercareProtocolHandler.set",
              "GeckoAsyncUdpProtocol.get/queue_send", "GeckoUdpProtocolHandler.wait_for_response",
              "GeckoAsyncPartialStatusBlockProtocolHandler.async_handle", "GeckoAsyncSpa._async_on_partial_status_update"]
-BOUNDS = {"commands": "one command per path on an arbitrary current state; quick = every device of every snapshot "
-                      "configuration, thorough adds a second command after the first",
+BOUNDS = {"commands": "one command per path on an arbitrary current state for every device of every snapshot configuration; "
+                      "plus three-command sequences on pairs of pump demands that share a byte/word",
           "state": "the bytes of the items the chosen command touches (device state, user demand, TempUnits, SetpointG, "
                    "EconActive) symbolic, the rest of the block from the shipped snapshot",
           "temperature argument": "three concrete temperatures per unit (min, max, a half-degree value); every decimal "
@@ -257,6 +257,48 @@ def pump_cmd(plat, c, l, base):
     return scenario
 
 
+def pump_sequence(plat, c, l, base):
+    """three commands in a row on demands that share a byte/word: a command that changes nothing, a change of a
+    neighbouring demand, then a real change of the first one - the last write must carry the neighbour's
+    *current* bits"""
+    def scenario(sx):
+        w = World(sx, plat, c, l, base)
+        pumps = [p for p in w.facade.pumps]
+        acc = w.spa.accessors
+        # two pumps whose demand items live in the same field
+        pairs = [(a, b) for a in pumps for b in pumps if a is not b
+                 and acc[a._user_demand["demand"]].pos == acc[b._user_demand["demand"]].pos]
+        if not pairs:
+            sx.check(True, "cmd.sequence.none")
+            return
+        pairs = pairs[:1]
+        x, y = pairs[sx.choice("pair", len(pairs))]
+        ax, ay = acc[x._user_demand["demand"]], acc[y._user_demand["demand"]]
+        w.symbolise([ax.tag, ay.tag])
+
+        def command(pump, mode):
+            del w.sent[:]
+            w.loop = type(w.loop)()           # a fresh virtual loop per command (the previous one was drained)
+            from sx.vloop import FakeDatagramTransport
+            w.proto.transport = FakeDatagramTransport(w.loop, w.proto, w._on_send)
+            w.run(pump.async_set_mode(mode))
+            sx.check(len(w.sent) == 1, "cmd.sequence.one-command")
+            ok, h = w.decode_spack(w.sent[0][1])
+            w.apply_and_echo(h.position, h.new_data)
+        cur = ax.value
+        sx.assume(cur in x.modes and cur != "")           # (a stored value outside the label list cannot be re-requested)
+        command(x, cur)                                   # 1. no change for x
+        my = [m for m in y.modes if m != ""][-2:]
+        command(y, my[sx.choice("y_mode", len(my))])     # 2. the neighbour changes
+        y_now = ay.value
+        mx = [m for m in x.modes if m != ""][-2:]
+        target = mx[sx.choice("x_mode", len(mx))]
+        command(x, target)                                # 3. x really changes
+        sx.check(ax.value == target, "cmd.sequence.target-reads-back")
+        sx.check(ay.value == y_now, "cmd.sequence.neighbour-demand-untouched", lambda: f"{ay.tag}: {ay.value!r} was {y_now!r}")
+    return scenario
+
+
 def heater_cmd(plat, c, l, base):
     def scenario(sx):
         w = World(sx, plat, c, l, base)
@@ -326,5 +368,7 @@ def units(tier):
         yield Unit(f"switch.async.{tag}", switch_cmd(plat, c, l, base, True), max_paths=20000)
         yield Unit(f"switch.sync.{tag}", switch_cmd(plat, c, l, base, False), max_paths=20000)
         yield Unit(f"pump.{tag}", pump_cmd(plat, c, l, base), max_paths=20000)
+        yield Unit(f"pump-sequence.{tag}", pump_sequence(plat, c, l, base), max_paths=50000,
+                   presets={"sibling_bits_all_ones": 0})
         yield Unit(f"heater.{tag}", heater_cmd(plat, c, l, base), max_paths=20000, ratio_floats=True)
         yield Unit(f"watercare.{tag}", watercare_cmd(plat, c, l, base))
